@@ -347,7 +347,9 @@ async def impl_case(case):
     detail = ""
     try:
         try:
-            resp = await client.request(req, cfg)
+            resp = await _bounded(client.request(req, cfg), _time_cap(case))
+        except _Unbounded:
+            raise
         except Exception as e:
             if st.rc_raised is not None and isinstance(e, OSError) and _in_chain(e, st.rc_raised):
                 # the exception of the failed reconnect (or a re-raise of it) ends the request; its kind is what counts
@@ -364,6 +366,10 @@ async def impl_case(case):
             j = next((j for j in range(st.k) if st.script.at(j) not in "tce" and st.pdu(j) == got), None)
             out = f"reply:stale{j}" if j is not None else "reply:unknown"
             detail = got.hex()
+    except _Unbounded:
+        out = "hang"
+        detail = f"request still running after {_time_cap(case):.0f} virtual seconds (twice the proved bound)"
+        del st.log[400:]
     except _RcFailed as e:
         out = f"rcfail:{st.rc_fail[0]}:{e.args[0]}"
     except _WEscaped as e:
@@ -443,6 +449,33 @@ def _in_chain(e, target):
 
 class _WEscaped(Exception):
     pass
+
+
+class _Unbounded(Exception):
+    """the request did not end within the bound the theorems give (elapsed_le / elapsed_le_io), generously doubled"""
+
+
+def _time_cap(case):
+    """virtual seconds after which a single request is declared unbounded: twice the bound of `elapsed_le` for the largest
+    configuration of the case (client / per-request timeout, retry budget), plus slack"""
+    ts = [t for t in (case.get("ct"), case.get("rt")) if t]
+    T = max(ts + [0]) / 1000
+    lat = case.get("lat", 0) / 1000
+    mr = max(case.get("cm") or 0, case.get("rm") or 0)
+    max_nt = int(-(-max(T, 20.0) // 0.5))
+    attempt = max(T, lat) + (119 * (max_nt + 1) + max_nt + 2) * max(0.5, lat)
+    return 2 * ((mr + 1) * attempt + 0.2 * (2 ** (mr + 1))) + 60
+
+
+async def _bounded(coro, cap):
+    cm = asyncio.timeout(cap)
+    try:
+        async with cm:
+            return await coro
+    except TimeoutError:
+        if cm.expired():
+            raise _Unbounded() from None
+        raise
 
 
 def run_impl_batch(cases):
